@@ -30,7 +30,9 @@ def oracle_pr(ck, dims, m, J, name, x):
         return None
     fop, iop = ('DWT1DForward', 'DWT1DInverse') if dims == 1 else ('DWTForward', 'DWTInverse')
     fcase = rt.Case('Z', fop, [m, J] + ([2] if dims == 2 else []), list(dec) + [x])
-    fw = rt.run_impl(fcase, IMPL)
+    from .. import impl_dwt
+    with impl_dwt.named(name):
+        fw = rt.run_impl(fcase, IMPL)
     desc = '%dD PR %s mode=%s J=%d shape=%s' % (dims, name, gen.MODE_NAME[m], J, tuple(x.shape))
     replay = {'oracle': 'pr', 'dims': dims, 'm': m, 'J': J, 'name': name, 'x': arr_json(x)}
     if dims == 1:
@@ -49,7 +51,8 @@ def oracle_pr(ck, dims, m, J, name, x):
         ck.oracle_ok(('raise', dims, m), nontriv=False, group='forward-raises')
         return None
     icase = rt.Case('Z', iop, [m] + ([2] if dims == 2 else []), list(rec) + list(fw))
-    bw = rt.run_impl(icase, IMPL)
+    with impl_dwt.named(name):
+        bw = rt.run_impl(icase, IMPL)
     if isinstance(bw, tuple):
         ck.fail(desc + ': inverse raises %s: %s' % (bw[1], bw[2]), replay, known_key=KF if short else None)
         return 'raise'
